@@ -15,11 +15,18 @@ import types
 import warnings
 
 
+def _is_unnamed_axis(name):
+    # Axes that are written as numbers in the expression get the internal name "unnamed.<uuid>"
+    # (followed by ellipsis indices) and are not reported.
+    tokens = name.split(".")
+    return len(tokens) >= 2 and tokens[0] == "unnamed" and len(tokens[1]) > 10 and tokens[1].isdigit()
+
+
 def _exprs_to_axes(exprs):
     values = defaultdict(list)
     for root in exprs:
         for expr in root.nodes():
-            if isinstance(expr, stage3.Axis):
+            if isinstance(expr, stage3.Axis) and not _is_unnamed_axis(expr.name):
                 tokens = expr.name.split(".")
                 values[tokens[0]].append((tuple(int(t) for t in tokens[1:]), expr.value))
 
